@@ -38,14 +38,23 @@ def split_lines(text):
     return out
 
 
-class Recorder:
-    """Identity line processor that records what it is handed (a LinePostProcessor subclass is made lazily)."""
-    def __init__(self):
-        self.seen = []
+_RECORDER = []
 
-    def __call__(self, t):
-        self.seen.append(tuple(t))
-        return t
+
+def Recorder():
+    """Identity line processor that records what it is handed (a real LinePostProcessor subclass, made lazily)."""
+    if not _RECORDER:
+        from nunavut._postprocessors import LinePostProcessor
+
+        class _Recorder(LinePostProcessor):
+            def __init__(self):
+                self.seen = []
+
+            def __call__(self, t):
+                self.seen.append(tuple(t))
+                return t
+        _RECORDER.append(_Recorder)
+    return _RECORDER[0]()
 
 
 def make_pps(kind):
